@@ -58,6 +58,36 @@ func genEnum(r *vh.Rand) EnumEnv {
 	if r.Chance(40) {
 		e.Desc = genDesc(r)
 	}
+	// info fields of the enum and info of its options
+	if r.Chance(30) {
+		for i, n := 0, r.Range(1, 2); i < n; i++ {
+			f := [3]string{vh.Pick(r, []string{"hex", "label", "weight"}) + fmt.Sprint(i), "", ""}
+			if r.Bool() {
+				f[1] = vh.Pick(r, []string{"Hex", "A label", "é"})
+			}
+			if r.Chance(40) {
+				f[2] = "describes " + f[0]
+			}
+			e.InfoFields = append(e.InfoFields, f)
+		}
+		e.OptInfos = make([]map[string]string, len(e.Options))
+		for i := range e.Options {
+			if r.Chance(60) {
+				m := map[string]string{}
+				for _, f := range e.InfoFields {
+					if r.Chance(70) {
+						m[f[0]] = vh.Pick(r, []string{"ff0000", "", "two words", "é日"})
+					}
+				}
+				if len(m) > 0 {
+					e.OptInfos[i] = m
+				}
+			}
+		}
+		if e.Unspecified != "" && r.Chance(40) {
+			e.UnspecInfo = map[string]string{e.InfoFields[0][0]: "none"}
+		}
+	}
 	return e
 }
 
